@@ -121,6 +121,10 @@ func runCheck(id, tier string) int {
 		return checkC14(tier)
 	case "C15":
 		return checkC15(tier)
+	case "C17":
+		return checkC17(tier)
+	case "C19":
+		return checkC19(tier)
 	case "C06":
 		return checkC06(tier)
 	case "C07":
